@@ -17,15 +17,15 @@ func init() {
 		ID:    "C03",
 		Level: "exploration",
 		Rule: "clients on one bucket prefix run under a deterministic scheduler that gates their object-store requests (one client runs at a time; logical time advances on every grant, call and return). Roles: committer (already open, one autocommit INSERT of a unique marker row = PUT node, PUT version, retire parent), merger / read-write opener (CREATE VIRTUAL TABLE, commits the merge of 2 unmerged versions), read-only opener, refresher (s3db_refresh on an open table); every open/refresh is followed by SELECT and recorded as read -> marker set. " +
-			"Exhaustive cases: for a two-client configuration ALL interleavings of the version-namespace requests (LIST, and GET/PUT/DELETE under root/; node objects are content-addressed and immutable, so they commute) are enumerated by depth-first replay of grant prefixes. Random cases: 3-4 clients, every request gated, 20 seeded random-priority schedules per case. In some configurations the first GET of a retired version (root/merged/) by the later openers fails with an injected storage error: that open or refresh may fail (it then observed nothing) but may not succeed without the version. " +
-			"Each history (call/return at logical time) is checked with porcupine against a grow-only set (add(i); read returns exactly the current set, which always contains the initial rows), then with scheduling off a read-write and a read-only open must contain every acknowledged marker. " +
+			"Exhaustive cases: for a two-client configuration ALL interleavings of the version-namespace requests (LIST, and GET/PUT/DELETE under root/; node objects are content-addressed and immutable, so they commute) are enumerated by depth-first replay of grant prefixes. Random cases: 3-4 clients, every request gated, 20 seeded random-priority schedules per case. In some configurations the first GET of a retired version (root/merged/) by the later openers fails with an injected storage error: that open or refresh may fail (it then observed nothing) but may not succeed without the version; in others the committer's PUT of its version object fails (the commit then added nothing, and the opener must still see the initial rows). " +
+			"Each history (call/return at logical time) is checked with porcupine against a grow-only set (add(i); read returns exactly the current set, which always contains the initial rows), then with scheduling off a read-only open (LIST answered one key per page), a read-write and another read-only open must each contain every acknowledged marker. " +
 			"non-trivial = a history with >=1 add concurrent with >=1 read; distinct = hash of the executed grant sequence (counted under 'distinct')",
 		Flavours: []string{"race"},
 		Cases: func(tier string) int {
 			if tier == "thorough" {
 				return len(c03Exhaustive) + 1000
 			}
-			return 4 + 20
+			return 5 + 20
 		},
 		MinNT: func(tier string) int {
 			if tier == "thorough" {
@@ -61,6 +61,10 @@ type c03config struct {
 	// opener or refresher after client 0 fails; such an operation may fail (it is then not
 	// part of the history) but must not succeed without that version's rows
 	FaultRetired bool
+	// FaultPublish: the committer's PUT of its new version object fails; the
+	// commit may fail (it is then not part of the history), and whatever the
+	// opener sees must still contain the initial rows
+	FaultPublish bool
 }
 
 var c03Exhaustive = []c03config{
@@ -68,6 +72,7 @@ var c03Exhaustive = []c03config{
 	{Name: "committer x rw-opener", Roles: []c03role{{"committer", 10}, {"open-rw", 0}}},
 	{Name: "merger x ro-opener", Roles: []c03role{{"open-rw", 0}, {"open-ro", 0}}, Full: true},
 	{Name: "committer x ro-opener whose first read of a retired version fails", Roles: []c03role{{"committer", 10}, {"open-ro", 0}}, FaultRetired: true},
+	{Name: "committer whose version PUT fails x ro-opener", Roles: []c03role{{"committer", 10}, {"open-ro", 0}}, FaultPublish: true},
 	{Name: "committer x refresher", Roles: []c03role{{"committer", 10}, {"refresher", 0}}},
 	{Name: "merger x rw-opener", Roles: []c03role{{"open-rw", 0}, {"open-rw", 0}}, Full: true},
 	{Name: "merger x refresher", Roles: []c03role{{"open-rw", 0}, {"refresher", 0}}, Full: true},
@@ -237,6 +242,9 @@ func c03Run(c *Case, w *c03world, cfg c03config, choose func(step int, enabled [
 	sc := newSched(names, cfg.GateAll)
 	for i, n := range names {
 		st.Client(n).SetGate(sc)
+		if k := cfg.Roles[i].Kind; cfg.FaultPublish && (k == "committer" || k == "committer2") {
+			st.Client(n).AddFault(fs3.Fault{Op: fs3.OpPut, KeyContain: "root/current/", Action: "error"})
+		}
 		if k := cfg.Roles[i].Kind; cfg.FaultRetired && i >= 1 && k != "committer" && k != "committer2" {
 			st.Client(n).AddFault(fs3.Fault{Op: fs3.OpGet, KeyContain: "root/merged/", Action: "error"})
 		}
@@ -276,6 +284,13 @@ func c03Run(c *Case, w *c03world, cfg c03config, choose func(step int, enabled [
 				call := sc.Tick()
 				err := cn.Exec(fmt.Sprintf("insert into %s values (%d,'m')", t, role.Marker))
 				ret := sc.Tick()
+				if err != nil && cfg.FaultPublish && fs3.IsInjected(err) {
+					// a commit that failed added nothing
+					<-opsMu
+					res.faulted++
+					opsMu <- struct{}{}
+					return
+				}
 				if err != nil {
 					<-opsMu
 					res.failed = append(res.failed, fmt.Sprintf("commit of marker %d failed: %v", role.Marker, err))
@@ -330,7 +345,13 @@ func c03Run(c *Case, w *c03world, cfg c03config, choose func(step int, enabled [
 		return res
 	}
 	// quiescent containment
-	for i, ro := range []bool{false, true} {
+	for i, ro := range []bool{true, false, true} {
+		// the read-only ones - the first still sees every unmerged version - get their LIST
+		// answered one key per page (scheduling is off here)
+		st.PageSize = 0
+		if ro {
+			st.PageSize = 1
+		}
 		cn := OpenConn("final")
 		t := tname(c, "final")
 		err := cn.Create(TableSpec{Name: t, Cols: c03Cols, Store: st.Name, Client: fmt.Sprintf("final%d", i), Prefix: "p", ReadOnly: ro})
@@ -437,7 +458,7 @@ func runC03(c *Case) {
 		c.Violate("C03:setup", err.Error(), nil)
 		return
 	}
-	nex := 4
+	nex := 5
 	if c.Tier == "thorough" {
 		nex = len(c03Exhaustive)
 	}
@@ -504,7 +525,7 @@ func runC03(c *Case) {
 	// random: 3-4 clients, every request gated
 	r := c.R
 	k := r.Range(3, 4)
-	cfg := c03config{GateAll: true, Full: r.Bool(), FaultRetired: r.Intn(3) == 0}
+	cfg := c03config{GateAll: true, Full: r.Bool(), FaultRetired: r.Intn(3) == 0, FaultPublish: r.Intn(5) == 0}
 	kinds := []string{"committer", "committer", "open-ro", "open-rw", "refresher"}
 	hasReader, hasWriter := false, false
 	for i := 0; i < k; i++ {
@@ -532,6 +553,9 @@ func runC03(c *Case) {
 	}
 	if cfg.FaultRetired {
 		cfg.Name += " (later openers' first read of a retired version fails)"
+	}
+	if cfg.FaultPublish {
+		cfg.Name += " (the committers' first PUT of a version object fails)"
 	}
 	for s := 0; s < 20 && c.Res.Status != "violated"; s++ {
 		// random priorities with a few change points (PCT style)
